@@ -871,10 +871,12 @@ pub fn call_inspect<O: Inspect + ?Sized>(rv: &mut Recv<O>, mi: usize, _a: &mut A
         _ => Ret::NoSuchMethod,
     }
 }
-pub const KVSTORE: [Meth; 1] = [m("kv_put")];
+pub const KVSTORE: [Meth; 3] = [m("kv_put"), m("kv_cell"), m("kv_len")];
 pub fn call_kvstore<O: KVStore + ?Sized>(rv: &mut Recv<O>, mi: usize, a: &mut A) -> Ret {
     match mi {
         0 => Ret::U(need_mut!(rv).kv_put(a.u(0), a.u(1))),
+        1 => Ret::U(need_mut!(rv).kv_cell(a.u(0), a.u(1) ^ 0x55, a.u(2) ^ 0xAA00)),
+        2 => Ret::U(rv.r().kv_len(a.u(0))),
         _ => Ret::NoSuchMethod,
     }
 }
